@@ -130,6 +130,9 @@ fn walk_one<H: Header>(
         Err(()) => return "new-panic".into(),
     }
     let mut out: Vec<String> = Vec::new();
+    let mut dead: std::collections::HashMap<usize, TagIter<H>> = std::collections::HashMap::new();
+    // only the header kinds whose payload_len asserts `size >= 8` promise to keep refusing after a panic
+    let strict_reuse = std::any::type_name::<H>() != std::any::type_name::<DummyTestHeader>();
     for op in ops.split(',').filter(|s| !s.is_empty() && *s != "-") {
         let (c, idx) = op.split_at(1);
         let i: usize = idx.parse().unwrap();
@@ -141,6 +144,18 @@ fn walk_one<H: Header>(
                 out.push("c".into());
             }
             "n" => {
+                if let Some(it) = dead.get_mut(&i) {
+                    // an iterator whose `next()` panicked is used again: it must panic again (observed as `dead`)
+                    if !strict_reuse {
+                        out.push("dead".into());
+                        continue;
+                    }
+                    match guarded(|| it.next().is_some()) {
+                        Err(()) => out.push("dead".into()),
+                        Ok(b) => out.push(format!("dead-resumed:{}", b)),
+                    }
+                    continue;
+                }
                 let r = match pool.get_mut(i).and_then(|x| x.as_mut()) {
                     None => {
                         out.push("dead".into());
@@ -164,7 +179,9 @@ fn walk_one<H: Header>(
                 };
                 match r {
                     Err(()) => {
-                        pool[i] = None;
+                        if let Some(it) = pool[i].take() {
+                            dead.insert(i, it);
+                        }
                         out.push("panic".into());
                     }
                     Ok(None) => out.push("none".into()),
@@ -195,7 +212,7 @@ fn walk_one<H: Header>(
         } else if ended {
             probe(mk, key, m, true)
         } else {
-            probe_panicked(mk, key, m)
+            probe_panicked_opt(mk, key, m, strict_reuse)
         };
         if let Some(w) = w {
             out.push(format!("probe:{}", w));
